@@ -1,20 +1,216 @@
-//! C03 — the query-option lattice (filled in by c03).
+//! C03 — the query-option lattice: count x search_k x oversampling x candidates x query,
+//! evaluated on one read transaction per built state.
+
+use std::collections::BTreeMap;
 
 use heed::RoTxn;
+use roaring::RoaringBitmap;
 
-use crate::common::RawDb;
+use crate::common::{arroy_db, catch, floats_of, Metric, RawDb};
 use crate::explore::Worker;
-use crate::hist::{HState, HistCfg};
+use crate::hist::{query, HState, HistCfg};
 use crate::layout::DIndex;
-use crate::oracle::Fail;
+use crate::oracle::{check_result, larger_is_nearer, Exactness, Fail};
+use crate::with_metric;
+
+#[derive(Clone, Debug)]
+enum Q {
+    Item(u32),
+    Vector(Vec<u32>),
+}
+
+fn budget(count: usize, trees: usize, search_k: Option<usize>, oversampling: Option<usize>, metric: Metric) -> u128 {
+    // the documented budget, in unbounded arithmetic
+    let base: u128 = match search_k {
+        Some(k) => k as u128,
+        None => count as u128 * trees as u128,
+    };
+    let o: u128 = match oversampling {
+        Some(o) => o as u128,
+        None => metric.default_oversampling() as u128,
+    };
+    (base * o).min(usize::MAX as u128)
+}
 
 pub fn query_lattice(
-    _cfg: &HistCfg,
-    _db: RawDb,
-    _rtxn: &RoTxn,
-    _st: &HState,
-    _ix: &DIndex,
-    _w: &mut Worker,
+    cfg: &HistCfg,
+    db: RawDb,
+    rtxn: &RoTxn,
+    st: &HState,
+    ix: &DIndex,
+    w: &mut Worker,
 ) -> Result<(), Fail> {
-    Ok(())
+    let model = &st.model.items;
+    let n = model.len();
+    let trees = ix.meta.as_ref().map_or(0, |m| m.roots.len());
+    let thorough = std::env::var("VERIF_TIER_INTERNAL").map_or(false, |t| t == "thorough");
+
+    let mut counts: Vec<usize> = vec![0, 1, 2, n, n + 1, 1usize << 63, usize::MAX];
+    if thorough {
+        counts.extend([1usize << 32, (1usize << 63) - 1]);
+    }
+    counts.sort();
+    counts.dedup();
+    let mut sks: Vec<Option<usize>> =
+        vec![None, Some(1), Some(2), Some(3), Some(5), Some(n.max(1)), Some((n * trees).max(1)), Some(usize::MAX)];
+    sks.dedup();
+    let overs: Vec<Option<usize>> = vec![None, Some(1), Some(2), Some(usize::MAX)];
+
+    // candidate filters
+    let ids: Vec<u32> = model.keys().copied().collect();
+    let all: RoaringBitmap = ids.iter().copied().collect();
+    let mut filters: Vec<(&'static str, Option<RoaringBitmap>)> = vec![
+        ("none", None),
+        ("empty", Some(RoaringBitmap::new())),
+        ("disjoint", Some(RoaringBitmap::from_iter([5u32, 77, 4_000_000_000].into_iter().filter(|x| !all.contains(*x))))),
+        ("lower-half", Some(ids.iter().copied().take(n / 2).collect())),
+        ("all", Some(all.clone())),
+        ("superset", Some(&all | RoaringBitmap::from_iter([5u32, 9, 4_000_000_000]))),
+    ];
+    if thorough {
+        for id in &ids {
+            filters.push(("single", Some(RoaringBitmap::from_iter([*id]))));
+        }
+    } else if let Some(id) = ids.last() {
+        filters.push(("single", Some(RoaringBitmap::from_iter([*id]))));
+    }
+
+    // queries: every stored id by item, its vector by vector, one unstored vector, one unknown id
+    let mut queries: Vec<Q> = Vec::new();
+    for (id, v) in model {
+        queries.push(Q::Item(*id));
+        queries.push(Q::Vector(v.clone()));
+    }
+    let unstored = cfg.menu.iter().flatten().find(|v| !model.values().any(|m| m == *v)).cloned();
+    if let Some(u) = unstored {
+        queries.push(Q::Vector(u));
+    }
+    let unknown_id = (0u32..).find(|i| !model.contains_key(i)).unwrap();
+
+    let desc = larger_is_nearer(cfg.metric);
+
+    with_metric!(cfg.metric, D => {
+        let reader = match catch(|| arroy::Reader::<D>::open(rtxn, cfg.index, arroy_db::<D>(db))) {
+            Ok(Ok(r)) => r,
+            Ok(Err(e)) => return Err(("L/open-failed".into(), e.to_string())),
+            Err(p) => return Err(("L/open-panicked".into(), p.message)),
+        };
+        let run = |q: &Q, count: usize, sk: Option<usize>, ov: Option<usize>, f: Option<&RoaringBitmap>| -> Result<Vec<(u32, f32)>, Fail> {
+            let what = || format!("nns({count}) search_k={sk:?} oversampling={ov:?} candidates={:?} query={q:?}", f.map(|b| b.iter().collect::<Vec<_>>()));
+            let fv;
+            let r = match q {
+                Q::Item(id) => query::<D>(&reader, rtxn, Some(*id), None, count, sk, ov, f),
+                Q::Vector(v) => {
+                    fv = floats_of(v);
+                    query::<D>(&reader, rtxn, None, Some(&fv), count, sk, ov, f)
+                }
+            };
+            match r {
+                Ok(Some(v)) => Ok(v),
+                Ok(None) => Err(("L/none-for-stored-id".into(), format!("{}: Ok(None)", what()))),
+                Err(e) => {
+                    let kind = if e.starts_with("panic") { "L/query-panicked" } else { "L/query-failed" };
+                    Err((kind.into(), format!("{}: {e}", what())))
+                }
+            }
+        };
+
+        // unknown id => Ok(None), for a few option cells
+        for &count in &[0usize, 1, n + 1] {
+            match query::<D>(&reader, rtxn, Some(unknown_id), None, count, None, None, None) {
+                Ok(None) => {}
+                other => return Err(("L/unknown-id".into(), format!("nns({count}).by_item({unknown_id}) on an unknown id returned {other:?}, expected Ok(None)"))),
+            }
+            w.count("lattice_cells", 1);
+        }
+
+        for (fname, filter) in &filters {
+            let f = filter.as_ref();
+            for q in &queries {
+                let qbits: Vec<u32> = match q {
+                    Q::Item(id) => model[id].clone(),
+                    Q::Vector(v) => v.clone(),
+                };
+                for &count in &counts {
+                    // all cells of this (filter, query, count), keyed by documented budget
+                    let mut by_budget: BTreeMap<u128, Vec<(u32, f32)>> = BTreeMap::new();
+                    for &ov in &overs {
+                        for &sk in &sks {
+                            let b = budget(count, trees, sk, ov, cfg.metric);
+                            if sk.is_none() && count == 0 {
+                                // count = 0: the default budget is 0, nothing to compare with
+                            }
+                            let res = run(q, count, sk, ov, f)?;
+                            w.count("lattice_cells", 1);
+                            let mode = if b == usize::MAX as u128 { Exactness::Exact } else { Exactness::WellFormed };
+                            check_result(cfg.metric, cfg.dim, model, &qbits, count, f, &res, mode, true)
+                                .map_err(|(c, m)| (c.replace("X/", "L/"), format!("nns({count}) search_k={sk:?} oversampling={ov:?} candidates={fname} query={q:?} (documented budget {b}): {m}")))?;
+                            match by_budget.get(&b) {
+                                Some(prev) => {
+                                    // same documented budget => same answer (covers "unset = count x trees x default oversampling")
+                                    if !same_list(prev, &res) {
+                                        return Err((
+                                            "L/budget-equivalence".into(),
+                                            format!("nns({count}) candidates={fname} query={q:?}: two option cells with the same documented budget {b} disagree: {prev:?} vs {res:?} (search_k={sk:?} oversampling={ov:?}, {trees} trees)"),
+                                        ));
+                                    }
+                                }
+                                None => {
+                                    by_budget.insert(b, res);
+                                }
+                            }
+                        }
+                    }
+                    // monotonicity along the budget chain
+                    let chain: Vec<(&u128, &Vec<(u32, f32)>)> = by_budget.iter().collect();
+                    for pair in chain.windows(2) {
+                        let (b1, r1) = pair[0];
+                        let (b2, r2) = pair[1];
+                        if r2.len() < r1.len() {
+                            return Err((
+                                "L/budget-shortens".into(),
+                                format!("nns({count}) candidates={fname} query={q:?}: budget {b1} gives {} results, larger budget {b2} only {}", r1.len(), r2.len()),
+                            ));
+                        }
+                        for (j, (a, b)) in r1.iter().zip(r2.iter()).enumerate() {
+                            let worse = if desc { b.1 < a.1 } else { b.1 > a.1 };
+                            if worse {
+                                return Err((
+                                    "L/budget-worsens-rank".into(),
+                                    format!("nns({count}) candidates={fname} query={q:?}: rank {j} is {a:?} with budget {b1} but {b:?} with larger budget {b2}"),
+                                ));
+                            }
+                        }
+                    }
+                    w.count("lattice_chains", 1);
+                }
+            }
+            // by_item(i) == by_vector(vector(i)) for every option cell of a reduced menu
+            for (id, v) in model {
+                let fv = floats_of(v);
+                for &count in &[1usize, n, n + 1] {
+                    for &sk in &[None, Some(1usize), Some(usize::MAX)] {
+                        let a = run(&Q::Item(*id), count, sk, None, f)?;
+                        let b = match query::<D>(&reader, rtxn, None, Some(&fv), count, sk, None, f) {
+                            Ok(Some(b)) => b,
+                            other => return Err(("L/query-failed".into(), format!("{other:?}"))),
+                        };
+                        w.count("lattice_cells", 2);
+                        if !same_list(&a, &b) {
+                            return Err((
+                                "L/item-vs-vector".into(),
+                                format!("nns({count}) search_k={sk:?} candidates={fname}: by_item({id}) = {a:?} but by_vector(its vector) = {b:?}"),
+                            ));
+                        }
+                    }
+                }
+            }
+        }
+        w.count("lattice_states", 1);
+        Ok(())
+    })
+}
+
+fn same_list(a: &[(u32, f32)], b: &[(u32, f32)]) -> bool {
+    a.len() == b.len() && a.iter().zip(b).all(|(x, y)| x.0 == y.0 && x.1.to_bits() == y.1.to_bits())
 }
